@@ -118,7 +118,7 @@ def from_arrays(
         raise Exception("Vertex array should have shape (n,3)")
     
     n_vert = V.shape[0]
-    m.vertices += list(np.array(V)) # rows of an own copy: the mesh never aliases the caller's array
+    m.vertices += list(np.array(V, dtype=float)) # rows of an own float copy: the mesh never aliases the caller's array, nor inherits an integer type
     if E is not None:
         if np.any(np.asarray(E)>=n_vert): raise Exception("Edges indices should be between 0 and n_vertices")
         if E.shape[1]!=2: raise Exception("Edge array should have shape (n,2)")
